@@ -160,6 +160,81 @@ GROUP_TRANSLATORS = {
 }
 
 
+# ---------------------------------------------------------------------------------------------------------
+# Source pins: escalation of the differential search when the code differs from the tree the models were
+# last validated against.  pins/source.json (committed; written only by tools/repin.py) maps every Rust source
+# file of the four crates to the sha1 of its text with comments and white space removed.  A difference NEVER
+# is a violation by itself (a harmless rewrite must stay quiet): it only makes the quick tier generate its
+# cases with the thorough-tier generator and `escalate` times as many of them, because a change to the code
+# is exactly the situation in which rare inputs matter.  Files are attributed to properties by crate.
+PINS = os.path.join(VERIF, "pins", "source.json")
+CRATE_SRC = {
+    "core": "lightmotif/src", "io": "lightmotif-io/src", "tfm": "lightmotif-tfmpvalue/src", "py": "lightmotif-py/lightmotif",
+}
+PROP_CRATES = {
+    "C12": ("tfm", "core"), "C13": ("tfm", "core"), "C14": ("io", "core"), "C15": ("io", "core"),
+    "C17": ("py", "core", "io", "tfm"), "C18": ("py", "core"),
+}
+
+
+def _strip_rust(text):
+    """Remove // and /* */ comments (outside string literals, approximately) and all white space."""
+    out, i, n = [], 0, len(text)
+    while i < n:
+        c = text[i]
+        if c == '"':
+            j = i + 1
+            while j < n and text[j] != '"':
+                j += 2 if text[j] == "\\" else 1
+            out.append(text[i:j + 1])
+            i = j + 1
+        elif text.startswith("//", i):
+            j = text.find("\n", i)
+            i = n if j < 0 else j
+        elif text.startswith("/*", i):
+            j = text.find("*/", i + 2)
+            i = n if j < 0 else j + 2
+        elif c.isspace():
+            i += 1
+        else:
+            out.append(c)
+            i += 1
+    return "".join(out)
+
+
+def source_fingerprints(repo=None):
+    repo = repo or REPO
+    fp = {}
+    for crate, rel in CRATE_SRC.items():
+        base = os.path.join(repo, rel)
+        for root, _dirs, files in os.walk(base):
+            if "/tests" in root[len(base):] or "/target" in root:
+                continue
+            for f in files:
+                if f.endswith(".rs"):
+                    path = os.path.join(root, f)
+                    try:
+                        txt = open(path, encoding="utf-8", errors="replace").read()
+                    except OSError:
+                        continue
+                    fp[os.path.relpath(path, repo)] = hashlib.sha1(_strip_rust(txt).encode()).hexdigest()
+    return fp
+
+
+def source_changed(pid):
+    """Source files (relative paths) relevant to property `pid` whose normalised text differs from the pin;
+    None when there is no pin file (then nothing is escalated)."""
+    try:
+        pins = json.load(open(PINS))["files"]
+    except (OSError, ValueError, KeyError):
+        return None
+    now = source_fingerprints()
+    crates = PROP_CRATES.get(pid, ("core",))
+    prefixes = tuple(CRATE_SRC[c] + "/" for c in crates)
+    changed = [f for f in sorted(set(pins) | set(now)) if pins.get(f) != now.get(f) and f.startswith(prefixes)]
+    return changed
+
+
 def all_coq_deps(group):
     seen, stack = [], list(coq_deps(group))
     while stack:
